@@ -637,4 +637,233 @@ theorem sendAll_ok_iff (b : Backend) (i : Nat) (ws : List Wire) :
         have := h (j + 1) (by simp; omega)
         rwa [show i + (j + 1) = i + 1 + j by omega] at this
 
+/-! ### End to end: server → recorder → uploader → backend -/
+
+theorem upload_ok_sent (b : Backend) (batch : List Wire) (h : (upload b batch).1 = true) :
+    (upload b batch).2 = batch := by
+  unfold upload at h ⊢
+  by_cases he : batch.isEmpty
+  · cases batch with
+    | nil => simp
+    | cons w ws => simp at he
+  · simp only [he, Bool.false_eq_true, if_false] at h ⊢
+    by_cases ho : b.openFails
+    · simp [ho] at h
+    · simp only [ho, Bool.false_eq_true, if_false] at h ⊢
+      by_cases hs : (sendAll b 0 batch).1
+      · simp only [hs, Bool.not_true, Bool.false_eq_true, if_false] at h ⊢
+        cases hc : b.close <;> simp [hc] at h ⊢ <;> exact sendAll_ok b 0 batch hs
+      · simp [hs] at h
+
+theorem runSer_one (s : St) (o : Op) : runSer s [o] = stepSer s o := rfl
+
+theorem wireSum_filterMap_notin (g : Dev → Option Wire) (hg : ∀ k w, g k = some w → w.dev = k)
+    (order : List Dev) (d : Dev) (h : d ∉ order) : wireSum d (order.filterMap g) = 0 := by
+  induction order with
+  | nil => rfl
+  | cons k ks ih =>
+    have hk : k ≠ d := fun e => h (by simp [e])
+    have hks : d ∉ ks := fun e => h (by simp [e])
+    cases hgk : g k with
+    | none => simpa [List.filterMap_cons, hgk] using ih hks
+    | some w =>
+      have := hg k w hgk
+      simp [hgk, wireSum, this, hk, ih hks]
+
+theorem wireSum_filterMap (g : Dev → Option Wire) (hg : ∀ k w, g k = some w → w.dev = k)
+    (order : List Dev) (d : Dev) (hn : order.Nodup) (hd : d ∈ order) :
+    wireSum d (order.filterMap g) = match g d with | some w => w.queries | none => 0 := by
+  induction order with
+  | nil => simp at hd
+  | cons k ks ih =>
+    rw [List.nodup_cons] at hn
+    by_cases hk : k = d
+    · subst hk
+      have h0 := wireSum_filterMap_notin g hg ks k hn.1
+      cases hgk : g k with
+      | none => simpa [List.filterMap_cons, hgk] using h0
+      | some w =>
+        have := hg k w hgk
+        simp [hgk, wireSum, this, h0]
+    · have hd' : d ∈ ks := by
+        rcases List.mem_cons.mp hd with e | e
+        · exact absurd e.symm hk
+        · exact e
+      have := ih hn.2 hd'
+      cases hgk : g k with
+      | none => simpa [List.filterMap_cons, hgk] using this
+      | some w =>
+        have hw := hg k w hgk
+        simpa [List.filterMap_cons, hgk, wireSum, hw, hk] using this
+
+theorem toWire_dev (k : Dev) (r : Rec) : (toWire k r).dev = k := by
+  simp only [toWire]
+
+theorem toWire_queries_lt (k : Dev) (r : Rec) (h : r.n < 4294967296) : (toWire k r).queries = r.n := by
+  simp only [toWire, toU32, wrap32]
+  omega
+
+theorem wireG_dev (t : Recs) (k : Dev) (w : Wire) (h : (t k).map (toWire k) = some w) : w.dev = k := by
+  cases hk : t k with
+  | none => simp [hk] at h
+  | some r =>
+    simp only [hk, Option.map_some, Option.some.injEq] at h
+    rw [← h]; exact toWire_dev k r
+
+theorem wireSum_covers (order : List Dev) (t : Recs) (d : Dev) (hc : Covers order t)
+    (hb : cnt t d < 4294967296) : wireSum d (wireBatch order t) = cnt t d := by
+  unfold wireBatch
+  by_cases hd : d ∈ order
+  · rw [wireSum_filterMap _ (wireG_dev t) order d hc.1 hd]
+    unfold cnt at *
+    cases h : t d with
+    | none => simp
+    | some r =>
+      simp only [h] at hb
+      simp only [Option.map_some]
+      exact toWire_queries_lt d r hb
+  · rw [wireSum_filterMap_notin _ (wireG_dev t) order d hd]
+    unfold cnt
+    cases h : t d with
+    | none => rfl
+    | some r => exact absurd (hc.2 d (by simp [h])) hd
+
+theorem mem_wireBatch (order : List Dev) (t : Recs) (w : Wire) :
+    w ∈ wireBatch order t ↔ ∃ d, d ∈ order ∧ ∃ r, t d = some r ∧ w = toWire d r := by
+  unfold wireBatch
+  simp only [List.mem_filterMap, Option.map_eq_some_iff]
+  constructor
+  · rintro ⟨d, hd, r, hr, rfl⟩; exact ⟨d, hd, r, hr, rfl⟩
+  · rintro ⟨d, hd, r, hr, rfl⟩; exact ⟨d, hd, r, hr, rfl⟩
+
+theorem e2e_step_st (e : E2E) (ev : Ev) : (e.step ev).st = runSer e.st (lowerEv e.st ev) := by
+  cases ev with
+  | query q => rfl
+  | «begin» => rfl
+  | finish b order =>
+    simp only [E2E.step]
+    cases h : e.st.inflight[0]? with
+    | none => simp [lowerEv, h, runSer]
+    | some batch =>
+      simp only []
+      split <;> rfl
+
+theorem e2e_run_st (e : E2E) (evs : List Ev) : (e.run evs).st = runSer e.st (lower e.st evs) := by
+  induction evs generalizing e with
+  | nil => rfl
+  | cons ev evs ih =>
+    simp only [E2E.run, lower]
+    rw [ih, e2e_step_st, runSer_append]
+
+theorem billed_cons (d : Dev) (ev : Ev) (evs : List Ev) :
+    billed d (ev :: evs) = billed d [ev] + billed d evs := by
+  cases ev <;> simp [billed]
+
+theorem countRec_lowerEv (s : St) (ev : Ev) (d : Dev) : countRec d (lowerEv s ev) = billed d [ev] := by
+  cases ev with
+  | query q =>
+    simp only [lowerEv, billed]
+    cases billOf q with
+    | none => simp [countRec]
+    | some dm => simp [countRec]
+  | «begin» => simp [lowerEv, billed, countRec]
+  | finish b order =>
+    simp only [lowerEv, billed]
+    cases s.inflight[0]? with
+    | none => simp [countRec]
+    | some batch =>
+      simp only []
+      split <;> simp [countRec]
+
+theorem countRec_lower (s : St) (evs : List Ev) (d : Dev) : countRec d (lower s evs) = billed d evs := by
+  induction evs generalizing s with
+  | nil => rfl
+  | cons ev evs ih =>
+    simp only [lower]
+    rw [countRec_append, ih, countRec_lowerEv, billed_cons d ev evs]
+
+theorem lastBilled_cons (d : Dev) (ev : Ev) (evs : List Ev) :
+    lastBilled d (ev :: evs) = (lastBilled d evs).or (lastBilled d [ev]) := by
+  cases ev with
+  | query q =>
+    simp only [lastBilled]
+    cases lastBilled d evs <;> simp
+  | «begin» => simp [lastBilled]
+  | finish b order => simp [lastBilled]
+
+theorem lastRec_lowerEv (s : St) (ev : Ev) (d : Dev) : lastRec d (lowerEv s ev) = lastBilled d [ev] := by
+  cases ev with
+  | query q =>
+    simp only [lowerEv, lastBilled]
+    cases billOf q with
+    | none => simp [lastRec]
+    | some dm => simp [lastRec]
+  | «begin» => simp [lowerEv, lastBilled, lastRec]
+  | finish b order =>
+    simp only [lowerEv, lastBilled]
+    cases s.inflight[0]? with
+    | none => simp [lastRec]
+    | some batch =>
+      simp only []
+      split <;> simp [lastRec]
+
+theorem lastRec_lower (s : St) (evs : List Ev) (d : Dev) : lastRec d (lower s evs) = lastBilled d evs := by
+  induction evs generalizing s with
+  | nil => rfl
+  | cons ev evs ih =>
+    simp only [lower]
+    rw [lastRec_append, ih, lastRec_lowerEv, lastBilled_cons d ev evs]
+
+/-- What one event must satisfy for `GoodRun`. -/
+def GoodEv (e : E2E) : Ev → Prop
+  | .finish _ order => ∀ batch, e.st.inflight[0]? = some batch →
+      Covers order batch.recs ∧ ∀ d, cnt batch.recs d < 4294967296
+  | _ => True
+
+theorem goodRun_cons (e : E2E) (ev : Ev) (evs : List Ev) :
+    GoodRun e (ev :: evs) ↔ GoodEv e ev ∧ GoodRun (e.step ev) evs := by
+  cases ev <;> simp [GoodRun, GoodEv]
+
+theorem stepSer_record_delivered (s : St) (d : Dev) (m : Meta) :
+    (stepSer s (.record d m)).delivered = s.delivered := by
+  simp [stepSer, blocked, step]
+
+theorem stepSer_begin_delivered (s : St) : (stepSer s .begin).delivered = s.delivered := by
+  unfold stepSer
+  split <;> simp [step]
+
+theorem e2e_acked_step (e : E2E) (ev : Ev) (d : Dev) (ha : e.acked d = e.st.delivered d)
+    (hg : GoodEv e ev) : (e.step ev).acked d = (e.step ev).st.delivered d := by
+  cases ev with
+  | query q =>
+    simp only [E2E.step, lowerEv]
+    cases billOf q with
+    | none => simpa [runSer] using ha
+    | some dm => simpa [runSer, stepSer_record_delivered] using ha
+  | «begin» =>
+    simp only [E2E.step, lowerEv, runSer]
+    rw [stepSer_begin_delivered]; exact ha
+  | finish b order =>
+    simp only [E2E.step, lowerEv]
+    cases h : e.st.inflight[0]? with
+    | none => simpa using ha
+    | some batch =>
+      obtain ⟨hc, hb⟩ := hg batch h
+      simp only []
+      by_cases hu : (upload b (wireBatch order batch.recs)).1 = true
+      · simp only [hu, if_true, runSer_one]
+        rw [upload_ok_sent b _ hu, wireSum_covers order batch.recs d hc (hb d)]
+        simp [stepSer, blocked, step, h, ha]
+      · rw [if_neg hu, if_neg hu, runSer_one]
+        simp [stepSer, blocked, step, h, ha]
+
+theorem e2e_acked_run (e : E2E) (evs : List Ev) (d : Dev) (ha : e.acked d = e.st.delivered d)
+    (hg : GoodRun e evs) : (e.run evs).acked d = (e.run evs).st.delivered d := by
+  induction evs generalizing e with
+  | nil => exact ha
+  | cons ev evs ih =>
+    rw [goodRun_cons] at hg
+    simp only [E2E.run]
+    exact ih _ (e2e_acked_step e ev d ha hg.1) hg.2
+
 end Agd.BillStat
